@@ -63,6 +63,9 @@ type ReadCfg struct {
 	// Retry: the application retries a Read that failed with a temporary
 	// net.Error (the transport is told where to fail: Pipe.Transient).
 	Retry bool
+	// ContErr: the OnContinuation handler may refuse the final fragment of a
+	// message; the application answers with Discard and goes on (needs OnCont).
+	ContErr bool
 	// OnContRead: the OnContinuation handler reads part of the fragment's
 	// body itself (units are then always read to their end).
 	OnContRead bool
@@ -134,6 +137,9 @@ var bufSizes = [...]int{4096, 1, 2, 3, 5, 8, 16, 64, 512, 70000}
 func drawBuf(r *eng.Run) int { return bufSizes[r.T.Int(sim.LBuf, len(bufSizes))] }
 
 const maxZeroReads = 5000
+
+// errContHandler is what a refusing OnContinuation handler returns.
+var errContHandler = errors.New("sim: application handler refuses the fragment")
 
 // RunApp drives one read-side application over the pipe until the stream ends
 // or an API call fails.
@@ -290,6 +296,13 @@ func appReader(r *eng.Run, p *Pipe, cfg ReadCfg, o *Outcome) {
 	if cfg.OnCont {
 		rd.OnContinuation = func(h ws.Header, src io.Reader) error {
 			o.Conts = append(o.Conts, ContRec{h, pos()})
+			if cfg.ContErr && h.Fin && r.T.Bool(sim.LAct) {
+				// The application's handler refuses the last fragment (a size
+				// limit of its own, say); the application then gives the
+				// message up with Discard and carries on.
+				r.Probe("continuation_handler_refuses_final_fragment")
+				return errContHandler
+			}
 			if cfg.OnContRead && cur != nil {
 				// The handler takes the first bytes of the fragment itself;
 				// they are message data like any other.
@@ -327,12 +340,23 @@ func appReader(r *eng.Run, p *Pipe, cfg ReadCfg, o *Outcome) {
 			o.Recs = append(o.Recs, *rec)
 			continue
 		}
-		allow := !cfg.NoDiscard && !cfg.OnContRead
+		allow := !cfg.NoDiscard && !cfg.OnContRead && !cfg.ContErr
 		if allow && cfg.MustRead != nil && cfg.MustRead(len(topLevel(o.Recs))) {
 			allow = false
 		}
 		cur = rec
 		if !readUnit(r, p, rd, rd.Discard, rec, o, allow) {
+			// (Only when the refusal came out of Read: a Discard that was
+			// itself refused has not discarded the message.)
+			if cfg.ContErr && errors.Is(o.Err, errContHandler) && o.ErrAt == "Read" {
+				if derr := rd.Discard(); derr == nil {
+					rec.Partial = true
+					rec.EndAt = -1
+					o.Recs = append(o.Recs, *rec)
+					o.Open, o.Err, o.ErrAt = nil, nil, ""
+					continue
+				}
+			}
 			if cfg.AfterUTF8Error && o.Err == wsutil.ErrInvalidUTF8 && o.ErrAt == "Read" {
 				if derr := rd.Discard(); derr == nil {
 					rec.Rejected, rec.Partial = true, true
